@@ -230,6 +230,39 @@ def tie(ctx):
             if len(samples) < 2:
                 samples.append({"genes": [g.name for _, g, _ in genes], "gap": gap, "diplotypes": {os.path.basename(kk3): [s.get_major_diplotype() for s in v] for kk3, v in r1.items()},
                                 "output_lines": len((t1 or "").split("\n"))})
+        # ---- a named profile: `wxs` / `exome` switch copy-number calling off (two copies assumed), `wgs` is an alias
+        # of the full model; the replay of the archive must make the same choice. Three gene copies simulated.
+        import tarfile
+        import views
+        from aldy.common import GRange
+        for pk, pname in enumerate(["wxs"] if quick else ["wxs", "exome", "wgs"]):
+            g = views.shipped_gene("cyp2d6", "hg19")
+            ncnr = GRange("22", 42547463, 42548249)
+            first = sorted(g.alleles["1"].minors)[0]
+            reads = sim.simulate_reads(g, [("1", first)] * 3, depth=10, read_len=100, name_prefix="s") + sim.neutral_reads(ncnr, 20, read_len=100)
+            nbam = os.path.join(d, f"named{pk}.bam")
+            sim.write_bam(nbam, reads, chrom="22", length=51304566)
+            ndir = os.path.join(d, f"named{pk}", "dbg")
+            os.makedirs(ndir, exist_ok=True)
+            inp = {"sample": "three simulated copies of CYP2D6*1", "gene": "cyp2d6", "profile": pname}
+            fam["dump_replay"]["cases"] += 1
+            try:
+                r1 = genotype("cyp2d6", nbam, pname, output_file=None, debug=os.path.join(ndir, "x"))
+                e1 = None
+            except AldyException as e:
+                r1, e1 = {}, str(e)[:80]
+            ntar = os.path.join(d, f"named{pk}", "a.tar.gz")
+            with tarfile.open(ntar, "w:gz") as t:
+                t.add(ndir, arcname="dbg")
+            try:
+                r2 = genotype("cyp2d6", ntar, pname, output_file=None)
+                e2 = None
+            except AldyException as e:
+                r2, e2 = {}, str(e)[:80]
+            stats["named_profile_replays"] += 1
+            if canon_sols(r1) != canon_sols(r2) or (e1 is None) != (e2 is None):
+                violations.append({"why": f"profile {pname}: replaying the archive gives {str(canon_sols(r2))[:200]} (error {e2}), the original run {str(canon_sols(r1))[:200]} (error {e1})",
+                                   "input": inp, "signature": "c17:named_profile_replay_differs"})
         if not quick:
             # the shipped sample of the test-suite: reads run past the RefSeq window of CYP2D6 there
             import tarfile
